@@ -175,6 +175,8 @@ BREAKING = [
     ('C13', 'sc3/seq/patterns/eventpatterns.py', "                event = inevent.copy()\n                event.update(self._stream_dict_next(stream_dict))", "                event = inevent\n                event.update(self._stream_dict_next(stream_dict))", 'Pbind writes into the input event'),
     ('C13', 'sc3/seq/patterns/eventpatterns.py', "        streams = [stm.stream(p) for p in reversed(self.patterns)]", "        streams = [stm.stream(p) for p in self.patterns]", 'Pchain applies its patterns first to last'),
     ('C14', 'sc3/seq/patterns/eventpatterns.py', "                    event['node_id'] = node_id\n                    event['mono_params'] = mono_params\n                    inevent = yield event\n        except stm.StopStream:\n            cleanup.run()", "                    event['node_id'] = node_id\n                    event['mono_params'] = mono_params\n                    inevent = yield event\n        except stm.StopStream:\n            pass", 'Pmono never releases its synth'),
+    ('C06', 'sc3/base/_osclib.py', "                    dgram += write_int(size)\n                    dgram += content.dgram", "                    dgram += content.dgram\n                    dgram += write_int(size)", 'bundle element size written after the element'),
+    ('C06', 'sc3/base/_osclib.py', "                elif arg_type == self.ARG_TYPE_FLOAT:\n                    dgram += write_float(value)", "                elif arg_type == self.ARG_TYPE_FLOAT:\n                    dgram += write_double(value)", 'float arguments encoded as doubles under tag f'),
 ]
 
 
